@@ -74,7 +74,7 @@ theorem extracted_stb_eq (s : St) (ein eout : List Ax) :
 
 /-- The same statement read from the model's side: the model's result is the translation's, with the error
 message forgotten. -/
-theorem extracted_stb_eq' (s : St) (ein eout : List Ax) :
+theorem extracted_stb_toOption (s : St) (ein eout : List Ax) :
     (stb s ein eout).toOption = (Stb.squeezeTransposeBroadcast ein s eout false).toOption.map (·.2) := by
   rw [extracted_stb_eq]
   cases stb s ein eout <;> rfl
